@@ -728,7 +728,28 @@ func valueOrigins(fn *ssa.Function, v ssa.Value, f func(root ssa.Value)) {
 						rec(st.(*ssa.Store).Val)
 					}
 					if rd.fromEntry[y] {
-						f(rootCell(c)) // value from outside this function's flow
+						// value from outside this function's flow: for a captured variable follow the
+						// stores made by the function that owns it (flow-insensitively)
+						root := rootCell(c)
+						if a, ok := root.(*ssa.Alloc); ok && a.Parent() != y.Parent() {
+							n := 0
+							for _, g := range withClosures(a.Parent()) {
+								if g == y.Parent() {
+									continue
+								}
+								allInstrs(g, func(in ssa.Instruction) {
+									if st, ok := in.(*ssa.Store); ok && rootCell(st.Addr) == root {
+										n++
+										rec(st.Val)
+									}
+								})
+							}
+							if n == 0 {
+								f(root)
+							}
+						} else {
+							f(root)
+						}
 					}
 					return
 				}
